@@ -404,6 +404,7 @@ func (r *replicator) processHash(ctx context.Context, item processItem) ([]cid.C
 				continue
 			}
 
+			verifhook.Point("replicator.before-progress-emit", r)
 			if err := r.emitters.evtLoadProgress.Emit(NewEventLoadProgress(entry)); err != nil {
 				r.logger.Warn("unable to emit event load progress", zap.Error(err))
 			}
